@@ -7,8 +7,8 @@ import (
 	"fmt"
 	"io"
 	"math/rand"
-	"time"
 	"strings"
+	"time"
 
 	"github.com/cockroachdb/pebble/vfs"
 	"github.com/jamf/regatta/regattapb"
@@ -47,7 +47,9 @@ func observe(r *realFSM) (repObs, error) {
 	return repObs{content: sb.String(), kvs: res.Kvs, idx: a, lidx: b}, nil
 }
 
-func (o repObs) eq(p repObs) bool { return o.content == p.content && o.idx == p.idx && o.lidx == p.lidx }
+func (o repObs) eq(p repObs) bool {
+	return o.content == p.content && o.idx == p.idx && o.lidx == p.lidx
+}
 func (o repObs) String() string {
 	c := o.content
 	if len(c) > 200 {
@@ -173,7 +175,12 @@ func runC08(args []string) error {
 			return err
 		}
 		junk := uint64(999)
-		_, _, _ = dst.apply([]gEntry{{Idx: 1, Cmd: gCmd{Kind: regattapb.Command_PUT, K: []byte("junk"), V: []byte("junk"), Leader: &junk}}})
+		junkIdx := uint64(1)
+		if c%3 == 1 { // a receiver whose own applied index is beyond the snapshot's: the install still replaces everything
+			junkIdx = 1000000
+		}
+		_, _, _ = dst.apply([]gEntry{{Idx: junkIdx, Cmd: gCmd{Kind: regattapb.Command_PUT, K: []byte("junk"), V: []byte("junk"), Leader: &junk}}})
+		sum.hist("receiver_index").Inc(map[bool]string{true: "beyond the snapshot's", false: "below the snapshot's"}[junkIdx > 1])
 		if err := dst.f.RecoverFromSnapshot(bytes.NewReader(stream), nil); err != nil {
 			sum.violate(c, "recovering from a complete snapshot fails", in, err.Error())
 			continue
